@@ -79,6 +79,26 @@ def main() -> int:
                                           spec="default schema S (environment) gives the same result as explicit qualification"))
             elif j < n and a != spec[i]:
                 spec_failures.append(dict(case, suite="vs-specification", impl=a, spec=spec[i]))
+        # the two mechanisms combined with a scoped override of ANOTHER option (which must not hide or replace the default)
+        k = 50 if quick else 500
+        sub = plain[:k]
+        for other in ({"DIRECTORY": "/srv/sql"}, {"TSQL_NO_SEMICOLON": True}):
+            env_other = env_summaries([dict(x, config=other) for x in sub], S)
+            scoped_other = t2tie.summaries([dict(x, config=dict(other, DEFAULT_SCHEMA=S)) for x in sub])
+            for j, (e, a2) in enumerate(zip(env_other, scoped_other)):
+                ck.count()
+                dist["mechanisms"]["with_other_override"] = dist["mechanisms"].get("with_other_override", 0) + 1
+                b = explicit[j]
+                if b.startswith("ERR:InvalidSyntax"):
+                    continue
+                if e != b:
+                    spec_failures.append({"default_schema": S, "sql": sub[j]["sql"], "suite": "environment+scoped-other-option", "other_option": other,
+                                          "with_environment_variable": e, "explicitly_qualified": b,
+                                          "spec": "a default schema from the environment still applies inside a scoped override of another option"})
+                elif a2 != b:
+                    spec_failures.append({"default_schema": S, "sql": sub[j]["sql"], "suite": "scoped-default+other-option", "other_option": other,
+                                          "with_default_schema": a2, "explicitly_qualified": b,
+                                          "spec": "a scoped default schema applies whatever other options the same override sets"})
         # tie under a default schema
         for x in t2tie.run_scripts([dict(x, config={"DEFAULT_SCHEMA": S}) for x in plain[: (40 if quick else 400)]]):
             ck.count()
@@ -110,7 +130,7 @@ def main() -> int:
                 "correspondence T2 under a default schema between Tree/*.v (e_cfg, e_icfg) and sqllineage/core/models.py, sqlfluff/models.py",
                 "scoped override, environment variable, explicit qualification and the specification were compared on every statement; no failing input")
     return ck.finish(rule="%d generated statements (2 of 7 table names unqualified, targets qualified or not) x default schema in {unset, fresh name, name already "
-                          "used as a qualifier} x mechanism in {scoped override, environment variable in a fresh process} x {plain, qualified names spelled as one "
+                          "used as a qualifier} x mechanism in {scoped override, environment variable in a fresh process, either combined with a scoped override of another option} x {plain, qualified names spelled as one "
                           "quoted dotted identifier}; non-trivial = distinct (schema, SQL) with lineage" % n)
 
 
